@@ -28,6 +28,8 @@ WITNESS_PERSISTENT = [[ADACCEPT, 1, 1], [HANDSHAKE, 1, 0, 7, 1], [ADEND, 1, 0]]
 WITNESS_ADAPTER_ERR = [[ADACCEPT, 1, 0], [ADACCEPT, 2, 1], [HANDSHAKE, 1, 0, 7, 1], [HANDSHAKE, 2, 0, 7, 1], [ADEND, 2, 1], [ADEND, 1, 1]]
 # the protocol adapter (listener) is closed while it still has live connections and the SessionManager keeps running
 WITNESS_ADAPTER_CLOSED = [[ADACCEPT, 1, 0], [ADACCEPT, 2, 1], [HANDSHAKE, 1, 0, 7, 1], [HANDSHAKE, 2, 0, 8, 1], [ADEND, 1, 2], [HEARTBEAT, 2], [ADEND, 2, 2]]
+# registry-level kick with and without a kick callback: the kicked connection's transport must be closed either way
+WITNESS_KICK_NIL_CALLBACK = [[ACCEPT, 1], [ACCEPT, 2], [HANDSHAKE, 1, 0, 7, 1], [HANDSHAKE, 2, 0, 8, 1], [KICK, 7, 9, 1], [KICK, 8, 9, 0], [CLOSE, 1]]
 WITNESS_CLAIM = [[ACCEPT, 1], [ACCEPT, 2], [HANDSHAKE, 1, 0, 7, 1], [REGCLAIM, 2, 7], [CLOSE, 2]]
 EX_ALPHABET_AD = [[ADACCEPT, 1, 1], [ADACCEPT, 2, 0], [HANDSHAKE, 1, 0, 1, 1], [HANDSHAKE, 2, 0, 1, 1], [HANDSHAKE, 2, 0, 2, 1], [ADEND, 1, 0],
                   [ADEND, 2, 2], [CLOSE, 1], [REMOVE, 2], [REGCLAIM, 1, 2], [REGCLAIM, 2, 1], [HEARTBEAT, 1], [SWEEP], [TICK, 3], [KICK, 1, 2]]
@@ -105,7 +107,7 @@ WITNESS_CAP_REREG_UNAUTH = [[ACCEPT, 1], [ACCEPT, 2], [HANDSHAKE, 1, 0, 5, 1], [
 WITNESS_CAP_REREG_NEWSTREAM = [[ACCEPT, 1], [ACCEPT, 2], [HANDSHAKE, 1, 0, 5, 1], [HANDSHAKE, 2, 0, 6, 1], [REREGNEW, 2, 7], [CLOSE, 2]]
 # re-registration of an existing ConnID: replacement unauthenticated / pre-authenticated, same stream / fresh stream object
 EX_ALPHABET_REREG = [[HANDSHAKE, 1, 0, 1, 1], [HANDSHAKE, 2, 0, 1, 1], [HANDSHAKE, 2, 0, 2, 1], [REREG, 1, 0], [REREG, 1, 2], [REREG, 2, 1],
-                     [REREGNEW, 1, 0], [REREGNEW, 1, 2], [REGRAW, 3, 0], [CLOSE, 1], [REMOVE, 1], [KICK, 2, 3], [AUTHRAW, 1, 1], [UNREG, 1]]
+                     [REREGNEW, 1, 0], [REREGNEW, 1, 2], [REGRAW, 3, 0], [CLOSE, 1], [REMOVE, 1], [KICK, 2, 3], [KICK, 1, 9, 1], [AUTHRAW, 1, 1], [UNREG, 1]]
 
 
 EX_INJECT = [[CLOSE, 1, 0, 0, 0], [CLOSE, 2, 0, 0, 0], [KICK, 1, 3, 0, 0], [SWEEP, 0, 0, 0, 0],
@@ -134,6 +136,8 @@ def gen_interleaved(rng, n, maxdepth):
         ops, k = [], 0
         for o in c["ops"]:
             # the hooked PackageStreamer transports of the interleaving cases are not driven by the adapter
+            if o[0] == KICK:
+                o = o[:3]      # a nil-callback kick writes no kick command: different I/O points, never an interleaving host
             if o[0] == ADACCEPT:
                 o = [ACCEPT, o[1]]
             elif o[0] == ADEND:
@@ -166,7 +170,8 @@ def rand_op(rng, conns, clients):
     if r < 0.67:
         return [UNREG, c]
     if r < 0.73:
-        return [KICK, x, rng.choice(conns)]
+        # a quarter of the kicks go through the registry API with a nil callback (third argument 1)
+        return [KICK, x, rng.choice(conns), 1] if rng.random() < 0.25 else [KICK, x, rng.choice(conns)]
     if r < 0.79:
         return [SWEEP]
     if r < 0.87:
@@ -389,6 +394,7 @@ def run(ctx, only_cases=None):
     probes += [{"cfg": CFG_CLOUD_FAIL, "ops": WITNESS_CLOUD_FAIL, "stream": "witness"}, {"cfg": CFG_CLOUD_FAIL, "ops": WITNESS_CLOUD_FAIL_SWEEP, "stream": "witness"},
                {"cfg": CFG0, "ops": WITNESS_PERSISTENT, "stream": "witness"}, {"cfg": CFG_CLOUD_FAIL, "ops": WITNESS_ADAPTER_ERR, "stream": "witness"},
                {"cfg": CFG0, "ops": WITNESS_ADAPTER_CLOSED, "stream": "witness"},
+               {"cfg": CFG0, "ops": WITNESS_KICK_NIL_CALLBACK, "stream": "witness"},
                {"cfg": CFG0, "ops": WITNESS_CLAIM, "stream": "witness"}]
     probes += [{"cfg": CFG0, "ops": w, "stream": "witness"} for w in WITNESS_LATE_REGISTER]
     probes += [{"cfg": CFG0, "ops": w, "stream": "witness"} for w in WITNESS_OVERLAP + [WITNESS_SIBLING_SWEEP, WITNESS_SIBLING_SWEEP2, WITNESS_REFUSED_DUP]]
